@@ -78,6 +78,9 @@ package core
 //@   ensures v == ite(ghost.dict_has[ival(self)][str(key)], ghost.dict_int[ival(self)][str(key)] != 0,
 //@                    ite(len(defaultValue) > 0, defaultValue[0], false))
 
+//@ iface Dict.GetInterface(self, key, defaultValue) (v)
+//@   nopanic
+
 //@ iface Dict.Set(self, key, value)
 //@   nopanic
 //@   modifies ghost.dict_has[ival(self)][str(key)], ghost.dict_int[ival(self)][str(key)]
